@@ -107,6 +107,15 @@ theorem grid_step_le_requested (mn mx dw : ℚ) (hdw : 0 < dw) (hN : 1 ≤ (grid
     linarith
 
 
+/-- the size of the common grid does not depend on the unit the wavelengths are expressed in: scaling both ends and the
+sampling by k > 0 leaves the number of intervals unchanged (so no absolute cap or tolerance can enter) -/
+theorem grid_size_scale_invariant (mn mx dw k : ℚ) (hk : 0 < k) (hdw : dw ≠ 0) :
+    gridNum (mn * k) (mx * k) (dw * k) = gridNum mn mx dw := by
+  unfold gridNum gridTol
+  congr 1
+  have hk' : k ≠ 0 := ne_of_gt hk
+  field_simp
+
 /-- the grid starts at the smaller of the two minima, has `ceil((max−min−tol)/Δ)+1` points … -/
 theorem grid_spans_union_start (mn mx dw : ℚ) :
     (commonGrid mn mx dw).head? = some mn ∧ (commonGrid mn mx dw).length = (gridNum mn mx dw).toNat + 1 := by
